@@ -564,3 +564,100 @@ pub fn ext(x: F) -> FE2 {
 pub fn ext_arr(x: FE2) -> [F; D] {
     <FE2 as FieldExtension<D>>::to_basefield_array(&x)
 }
+
+// ------------------------------------------------------------------------------------------
+// reference semantics of lookups / cross-table lookups over Z_m (multiset predicates)
+// ------------------------------------------------------------------------------------------
+/// value of a column expression at `row` (next row taken cyclically, as `Column::eval_table`)
+pub fn colexpr_ref(c: &ColExpr, trace: &[Vec<u64>], row: usize, m: u64) -> u64 {
+    let n = trace.len();
+    let mut acc = md(c.k, m);
+    for &(i, k) in &c.lin {
+        acc = addm(acc, mulm(md(k, m), trace[row][i] % m, m), m);
+    }
+    for &(i, k) in &c.next {
+        acc = addm(acc, mulm(md(k, m), trace[(row + 1) % n][i] % m, m), m);
+    }
+    acc
+}
+pub fn filter_ref(f: &Option<ColExpr>, trace: &[Vec<u64>], row: usize, m: u64) -> u64 {
+    match f {
+        None => 1 % m,
+        Some(c) => colexpr_ref(c, trace, row, m),
+    }
+}
+/// logUp: for every value v, (sum of the filter weights of the looking entries equal to v) =
+/// (sum of the frequencies of the table rows equal to v), in Z_m.  Returns the offending values.
+pub fn lookup_bad_values(l: &LookupDecl, trace: &[Vec<u64>], m: u64) -> Vec<u64> {
+    let mut w: std::collections::BTreeMap<u64, u64> = Default::default();
+    for row in 0..trace.len() {
+        for (c, f) in l.looking.iter().zip(&l.filters) {
+            let v = colexpr_ref(c, trace, row, m);
+            let e = w.entry(v).or_insert(0);
+            *e = addm(*e, filter_ref(f, trace, row, m), m);
+        }
+        let t = colexpr_ref(&l.table, trace, row, m);
+        let fr = colexpr_ref(&l.freq, trace, row, m);
+        let e = w.entry(t).or_insert(0);
+        *e = addm(*e, (m - fr) % m, m);
+    }
+    w.into_iter().filter(|(_, x)| *x != 0).map(|(v, _)| v).collect()
+}
+pub fn lookups_ok(sys: &Sys, trace: &[Vec<u64>], m: u64) -> bool {
+    sys.lookups.iter().all(|l| lookup_bad_values(l, trace, m).is_empty())
+}
+
+#[derive(Clone, Debug)]
+pub struct CtlSide {
+    pub table: usize,
+    pub cols: Vec<ColExpr>,
+    pub filter: Option<ColExpr>,
+}
+#[derive(Clone, Debug)]
+pub struct CtlDecl {
+    pub looking: Vec<CtlSide>,
+    pub looked: CtlSide,
+    pub extra: Vec<Vec<u64>>,
+}
+fn side_from(v: &Value) -> CtlSide {
+    CtlSide {
+        table: v["table"].as_u64().unwrap() as usize,
+        cols: v["cols"].as_array().unwrap().iter().map(colexpr_from).collect(),
+        filter: if v["filter"].is_null() { None } else { Some(colexpr_from(&v["filter"])) },
+    }
+}
+impl CtlDecl {
+    pub fn from_json(v: &Value) -> CtlDecl {
+        CtlDecl {
+            looking: v["looking"].as_array().unwrap().iter().map(side_from).collect(),
+            looked: side_from(&v["looked"]),
+            extra: v["extra"].as_array().map(|a| a.iter().map(|r| r.as_array().unwrap().iter().map(|x| x.as_u64().unwrap()).collect()).collect()).unwrap_or_default(),
+        }
+    }
+}
+/// CTL: the filter-weighted multiset of looking tuples (plus the extra tuples, weight 1) equals the
+/// filter-weighted multiset of looked tuples, in Z_m.  Returns the offending tuples.
+pub fn ctl_bad_tuples(c: &CtlDecl, traces: &[Vec<Vec<u64>>], m: u64) -> Vec<Vec<u64>> {
+    let mut w: std::collections::BTreeMap<Vec<u64>, u64> = Default::default();
+    let mut add = |side: &CtlSide, sign_neg: bool| {
+        let tr = &traces[side.table];
+        for row in 0..tr.len() {
+            let f = filter_ref(&side.filter, tr, row, m);
+            if f == 0 {
+                continue;
+            }
+            let t: Vec<u64> = side.cols.iter().map(|c| colexpr_ref(c, tr, row, m)).collect();
+            let e = w.entry(t).or_insert(0);
+            *e = addm(*e, if sign_neg { (m - f) % m } else { f }, m);
+        }
+    };
+    for s in &c.looking {
+        add(s, false);
+    }
+    add(&c.looked, true);
+    for x in &c.extra {
+        let e = w.entry(x.iter().map(|v| v % m).collect()).or_insert(0);
+        *e = addm(*e, 1 % m, m);
+    }
+    w.into_iter().filter(|(_, x)| *x != 0).map(|(t, _)| t).collect()
+}
